@@ -763,9 +763,9 @@ subscope 1 of key 7 while thread 2's re-acquire visit already holds its token; a
 the subscope and is about to clear it while thread 2 waits for the write lock of its own removal -/
 example :
     (run id (init id true true (some 7)) (nvRun.take 14)).map (fun s => (s.loop, pcOf s.reg 0, pcOf s.reg 2))
-      = some (.pass, .passSwap [7] 7 1 true, .obtDeliver 7 1 [{ id := 0, scope := 1, pre := true }]) ∧
+      = some (.pass, .passSwap [(7, 1)] 7 1 true, .obtDeliver 7 1 [{ id := 0, scope := 1, pre := true }]) ∧
     (run id (init id true true (some 7)) (nvRun.take 20)).map (fun s => (pcOf s.reg 0, pcOf s.reg 2, s.reg.reg))
-      = some (.passClear [7] 7 1, .obtUnlocked 7 1, [(0, 0)]) := by
+      = some (.passClear [(7, 1)] 7 1, .obtUnlocked 7 1, [(0, 0)]) := by
   constructor <;> decide
 
 set_option maxRecDepth 100000 in
